@@ -24,12 +24,23 @@ KINDS = {
     "interrupt": ("KeyboardInterrupt", "addError"),
     "exit": ("SystemExit", "addError"),
 }
+# exception classes of the user's own: subclasses of the classes testtools knows
+SUBCLASSES = {
+    "skip-subclass": ("UserSkip", ("SkipTest",), "addSkip"),
+    "fail-subclass": ("UserAssertion", ("AssertionError",), "addFailure"),
+    "xfail-subclass": ("UserExpectedFailure", ("_ExpectedFailure",), "addExpectedFailure"),
+    "error-subclass": ("UserError", ("Exception",), "addError"),
+    "custom": ("CustomError", ("Exception",), "addError"),
+}
+for _k, (_cls, _bases, _method) in SUBCLASSES.items():
+    KINDS[_k] = (_cls, _method)
 OUTCOME_METHODS = ("addSuccess", "addFailure", "addError", "addSkip", "addExpectedFailure", "addUnexpectedSuccess")
 UNSUCCESSFUL = ("addFailure", "addError", "addUnexpectedSuccess")
 
 
-def raised(kind, origin):
-    return ("exc", KINDS[kind][0], origin)
+def raised(kind, origin, args=None):
+    """An exception of that kind raised by ``origin``; ``args``: the arguments it was made with (default: one message)."""
+    return ("exc", KINDS[kind][0], origin) if args is None else ("exc", KINDS[kind][0], origin, tuple(args))
 
 
 def multi(origin, *members):
@@ -44,6 +55,7 @@ def user(name):
 
 class CaseDomain(so.StreamDomain):
     closed_private = True
+    invented_bases = {cls: bases for cls, bases, _ in SUBCLASSES.values()}
     """``script``: user callable name -> list of actions: ("call", method, pos, kw) on the case, ("raise", exception),
     ("return", value), ("set", attribute, value), ("once", action) -- the action in the first call of that callable
     only; a callable without script returns None.  ``result_raises``: result methods that raise."""
@@ -68,8 +80,8 @@ class CaseDomain(so.StreamDomain):
             for a in ("_run_test_with", "__unittest_expecting_failure__", "__unittest_skip__", "__unittest_skip_why__", "__self__"):
                 if f"m_{name}.{a}" not in attrs:
                     lacks.add(("m_" + name, a))
-        super().__init__(classes, accepting=("result", "default_result", "fixture", "patched"), attrs=attrs, oracle=oracle, lacks=lacks,
-                         ctors={"TracebackContent", "content.TracebackContent", "text_content", "content.text_content"} | set(kw.pop("ctors", ())), log_cap=120, **kw)
+        super().__init__(classes, accepting=("result", "default_result", "fixture", "patched", "matcher", "mismatch") + tuple(kw.pop("accepting_extra", ())), attrs=attrs, oracle=oracle, lacks=lacks,
+                         ctors={"TracebackContent", "content.TracebackContent", "text_content", "content.text_content", "StacktraceContent", "content.StacktraceContent"} | set(kw.pop("ctors", ())), log_cap=120, **kw)
 
     def apply(self, interp, fn, pos, kw, st, fr):
         if isinstance(fn, tuple) and fn[:1] == ("wobj",) and isinstance(fn[1], str) and fn[1].startswith("m_"):
